@@ -13,7 +13,7 @@ FUNCTIONS = ['netlist_to_utils', 'Model.__init__', 'Model.first_build_model', 'M
              'Model.add_rect', 'Model.fix', 'Model.build_model', 'ModelModule._define_vars', 'ModelModule.add_rect_north/south/east/west',
              'ModelModule.get_constraints', 'ModelWrapper.add_constraint/fix_variable/build_model/force_step', 'smax', 'thin',
              'ExpressionTree operators/evaluate/assign', 'Equation.is_equation_met']
-BOUNDS = {'quick': '17 netlist structures (hard N+E, fixed S+W, hard N+S+E+W; soft 1 rect; trunk+N; trunk+N+N; trunk+E+W; trunk+W+W; trunk+E+E; trunk+S+S; trunk+S; hard 1 and 2 rectangles with fractional '
+BOUNDS = {'quick': '19 netlist structures (hard N+E, fixed S+W, hard N+S+E+W, hard N+N and fixed E+E listed against the geometric order; soft 1 rect; trunk+N; trunk+N+N; trunk+E+W; trunk+W+W; trunk+E+E; trunk+S+S; trunk+S; hard 1 and 2 rectangles with fractional '
                    'and integer-typed coordinates; fixed; soft+soft; hard+soft) on die 10x8, aspect-ratio limit 2; every rectangle position '
                    'and size of the configuration symbolic (x,y in [-5,W+5], w,h in [0.1,30])',
           'thorough': 'additionally die 20x20 and limits 1.5, 3'}
@@ -63,6 +63,9 @@ NETS = {
     # hard / fixed modules with branches on two, two and four different sides of the trunk (branches of different sizes)
     'hardNE': {'A': {'hard': True, 'rectangles': [[4.0, 3.0, 2.0, 2.0], [4.0, 4.5, 1.0, 1.0], [5.5, 3.0, 1.0, 1.5]]}},
     'fixedSW': {'A': {'fixed': True, 'rectangles': [[5.0, 4.0, 2.0, 2.0], [5.0, 2.5, 1.0, 1.0], [3.5, 4.0, 1.0, 0.5]]}},
+    # two branches on the same side listed right-before-left / top-before-bottom (listing order differs from geometric order)
+    'hardNNrev': {'A': {'hard': True, 'rectangles': [[4.0, 3.0, 4.0, 2.0], [5.25, 4.5, 1.0, 1.0], [2.75, 4.25, 1.5, 0.5]]}},
+    'fixedEErev': {'A': {'fixed': True, 'rectangles': [[4.0, 4.0, 2.0, 4.0], [5.5, 5.25, 1.0, 1.0], [5.25, 2.75, 0.5, 1.5]]}},
     'hardNSEW': {'A': {'hard': True, 'rectangles': [[5.0, 4.0, 2.0, 2.0], [5.0, 5.5, 1.0, 1.0], [4.75, 2.75, 1.5, 0.5],
                                                     [6.25, 4.0, 0.5, 1.0], [3.5, 4.25, 1.0, 1.5]]}},
     'pair': {'A': {'area': 4.0, 'rectangles': [[2.0, 2.0, 2.0, 2.0]]}, 'B': {'area': 3.0, 'rectangles': [[6.0, 5.0, 2.0, 1.5]]}},
